@@ -5,86 +5,97 @@ package argmapper
 import (
 	"fmt"
 	"reflect"
-	"strings"
 )
 
 // C16 — options: case-insensitive names, last wins, call overrides default, nil-safe.
 
-var hSpellings = []string{"ab", "AB", "aB", "Ab", "cd", "CD"}
+var hSpellX = []string{"ab", "AB", "aB"}
+var hSpellY = []string{"cd", "Cd"}
 
-// HarnessC16 — a target with a named parameter (field spelling symbolic), a second
-// named parameter and a type-only parameter; m options drawn symbolically, the
-// first d of them given as defaults at construction.
+// HarnessC16 — a target with four parameters of four different types:
 //
-//	m      number of options (<=4)
-//	withNil  1: a nil Arg may appear in the list
+//	X P0  named "ab" (the spelling in the struct tag is symbolic)
+//	Y P2  named "cd" with subtype s
+//	Z P1  type-only with subtype s
+//
+// m options are drawn symbolically from Named / NamedSubtype / Typed / TypedSubtype
+// (with symbolic spellings), nil values and (withNil) a nil option. The first d are
+// construction defaults, the next ones the options of a first call, the rest the
+// options of a second call ON THE SAME Func: for each call the injected payloads
+// must be those of the last occurrence of the key over defaults ++ that call's options.
 func HarnessC16(m, withNil int) {
 	hOrderSites(0)
-	fieldSp := hSpellings[vnChoice("field", 4)] // spelling of the first parameter's name in the struct tag
-	// target: struct{ Struct; X P0 `argmapper:"<fieldSp>"`; Y P0 `argmapper:"cd"`; Z P1 `argmapper:",typeOnly"` }
+	fieldSp := []string{"ab", "Ab"}[vnChoice("field", 2)]
 	st := reflect.StructOf([]reflect.StructField{
 		{Name: "Struct", Type: structMarkerType, Anonymous: true},
 		{Name: "X", Type: hType(hTP0), Tag: reflect.StructTag(`argmapper:"` + fieldSp + `"`)},
-		{Name: "Y", Type: hType(hTP0), Tag: `argmapper:"cd"`},
-		{Name: "Z", Type: hType(hTP1), Tag: `argmapper:",typeOnly"`},
+		{Name: "Y", Type: hType(hTP2), Tag: `argmapper:"cd,subtype=s"`},
+		{Name: "Z", Type: hType(hTP1), Tag: `argmapper:",typeOnly,subtype=s"`},
 	})
-	var gotX, gotY, gotZ int
+	var got [3]int
 	ran := 0
 	fn := reflect.MakeFunc(reflect.FuncOf([]reflect.Type{st}, nil, false), func(args []reflect.Value) []reflect.Value {
 		ran++
-		_, gotX = hUnpack(args[0].Field(1).Interface())
-		_, gotY = hUnpack(args[0].Field(2).Interface())
-		_, gotZ = hUnpack(args[0].Field(3).Interface())
+		for i := 0; i < 3; i++ {
+			_, got[i] = hUnpack(args[0].Field(i + 1).Interface())
+		}
 		return nil
 	})
-	// the option list
 	const (
-		oNamed = iota // Named(spelling, P0{payload})
-		oTyped        // Typed(P1{payload})
-		oNilVal       // Named(spelling, nil) / Typed(nil): ignored
-		oNilArg       // a nil option
+		oX = iota // Named(spelling of ab, P0)
+		oY        // NamedSubtype(spelling of cd, P2, "s")
+		oZ        // TypedSubtype(P1, "s")
+		oNilVal   // a nil value: ignored
+		oNilArg   // a nil option
 	)
-	nk := 3
+	nk := 4
 	if withNil == 1 {
-		nk = 4
+		nk = 5
 	}
 	var opts []Arg
-	lastX, lastY, lastZ := -1, -1, -1
+	key := make([]int, m) // which parameter option i sets (-1: none)
 	pay := make([]int, m)
-	nilArg := false
+	isNilArg := make([]bool, m)
 	desc := ""
 	for i := 0; i < m; i++ {
 		pay[i] = vnPayload("pay", i)
-		switch vnChoice("kind", nk, i) {
-		case oNamed:
-			sp := hSpellings[vnChoice("sp", len(hSpellings), i)]
+		key[i] = -1
+		switch hPick("kind", nk, i) {
+		case oX:
+			sp := hSpellX[vnChoice("spx", len(hSpellX), i)]
 			opts = append(opts, Named(sp, hP0{pay[i]}))
-			if strings.ToLower(sp) == "ab" {
-				lastX = i
-			} else {
-				lastY = i
-			}
+			key[i] = 0
 			desc += fmt.Sprintf("Named(%s) ", sp)
-		case oTyped:
-			opts = append(opts, Typed(hP1{pay[i]}))
-			lastZ = i
-			desc += "Typed(P1) "
+		case oY:
+			sp := hSpellY[vnChoice("spy", len(hSpellY), i)]
+			opts = append(opts, NamedSubtype(sp, hP2{pay[i]}, "s"))
+			key[i] = 1
+			desc += fmt.Sprintf("NamedSubtype(%s,s) ", sp)
+		case oZ:
+			opts = append(opts, TypedSubtype(hP1{pay[i]}, "s"))
+			key[i] = 2
+			desc += "TypedSubtype(P1,s) "
 		case oNilVal:
-			sp := hSpellings[vnChoice("sp", len(hSpellings), i)]
-			if vnBool("nilTyped", i) {
+			switch hPick("nilkind", 4, i) {
+			case 0:
+				opts = append(opts, Named("ab", nil))
+			case 1:
+				opts = append(opts, NamedSubtype("cd", nil, "s"))
+			case 2:
 				opts = append(opts, Typed(nil))
-			} else {
-				opts = append(opts, Named(sp, nil))
+			default:
+				opts = append(opts, TypedSubtype(nil, "s"))
 			}
 			desc += "nil-value "
 		case oNilArg:
 			opts = append(opts, nil)
-			nilArg = true
+			isNilArg[i] = true
 			desc += "nil-Arg "
 		}
 	}
-	d := vnChoice("defaults", m+1)
-	vnNote(fmt.Sprintf("field spelling %q; options: %s; first %d are defaults", fieldSp, desc, d))
+	d := hPick("defaults", m+1)
+	e := d + hPick("firstcall", m-d+1)
+	vnNote(fmt.Sprintf("field spelling %q; options: %s; defaults [0,%d) first call [%d,%d) second call [%d,%d)", fieldSp, desc, d, d, e, e, m))
 	var f *Func
 	var err error
 	if hGuardPlain(func() { f, err = NewFunc(fn.Interface(), opts[:d]...) }) {
@@ -92,10 +103,9 @@ func HarnessC16(m, withNil int) {
 		return
 	}
 	if err != nil {
-		// a nil default option may be reported at construction
 		nilDefault := false
-		for _, o := range opts[:d] {
-			if o == nil {
+		for i := 0; i < d; i++ {
+			if isNilArg[i] {
 				nilDefault = true
 			}
 		}
@@ -103,38 +113,61 @@ func HarnessC16(m, withNil int) {
 		vnCover("C16.nil-default-reported")
 		return
 	}
-	var r Result
-	if hGuardPlain(func() { r = f.Call(opts[d:]...) }) {
-		vnAssert(false, "C16.call-does-not-panic")
-		return
+	for call := 0; call < 2; call++ {
+		lo, hi := d, e
+		if call == 1 {
+			lo, hi = e, m
+		}
+		ran = 0
+		var r Result
+		if hGuardPlain(func() { r = f.Call(opts[lo:hi]...) }) {
+			vnAssert(false, "C16.call-does-not-panic")
+			return
+		}
+		vnCover("C16.call-returned")
+		// effective option list of this call: defaults ++ this call's options
+		last := [3]int{-1, -1, -1}
+		nilArg := false
+		for i := 0; i < m; i++ {
+			if i < d || (i >= lo && i < hi) {
+				if isNilArg[i] {
+					nilArg = true
+				}
+				if key[i] >= 0 {
+					last[key[i]] = i
+				}
+			}
+		}
+		if nilArg {
+			vnAssert(r.Err() != nil, "C16.nil-option-yields-error-result")
+			vnAssert(ran == 0, "C16.nil-option-target-not-run")
+			vnCover("C16.nil-option-checked")
+			continue
+		}
+		if last[0] < 0 || last[1] < 0 || last[2] < 0 {
+			vnAssert(r.Err() != nil, "C16.missing-key-fails")
+			continue
+		}
+		vnAssert(r.Err() == nil, "C16.call-succeeds")
+		if r.Err() != nil {
+			continue
+		}
+		vnAssert(ran == 1, "C16.target-ran-once")
+		vnAssert(got[0] == pay[last[0]], "C16.named-last-occurrence-wins-case-insensitively")
+		vnAssert(got[1] == pay[last[1]], "C16.named-subtype-last-occurrence-wins-case-insensitively")
+		vnAssert(got[2] == pay[last[2]], "C16.typed-subtype-last-occurrence-wins")
+		for k := 0; k < 3; k++ {
+			if last[k] < d {
+				vnCover("C16.default-applies")
+			} else {
+				vnCover("C16.call-overrides-or-supplies")
+			}
+		}
+		if call == 1 {
+			vnCover("C16.second-call-checked")
+		}
+		vnCover("C16.values-checked")
 	}
-	vnCover("C16.call-returned")
-	if nilArg {
-		vnAssert(r.Err() != nil, "C16.nil-option-yields-error-result")
-		vnAssert(ran == 0, "C16.nil-option-target-not-run")
-		vnCover("C16.nil-option-checked")
-		return
-	}
-	if lastX < 0 || lastY < 0 || lastZ < 0 {
-		vnAssert(r.Err() != nil, "C16.missing-key-fails")
-		return
-	}
-	vnAssert(r.Err() == nil, "C16.call-succeeds")
-	if r.Err() != nil {
-		return
-	}
-	vnAssert(ran == 1, "C16.target-ran-once")
-	// last occurrence over defaults ++ call options wins; this is also "call overrides default"
-	vnAssert(gotX == pay[lastX], "C16.named-last-occurrence-wins-case-insensitively")
-	vnAssert(gotY == pay[lastY], "C16.second-name-last-occurrence-wins")
-	vnAssert(gotZ == pay[lastZ], "C16.typed-last-occurrence-wins")
-	if lastX < d || lastY < d || lastZ < d {
-		vnCover("C16.default-applies")
-	}
-	if lastX >= d {
-		vnCover("C16.call-overrides-or-supplies")
-	}
-	vnCover("C16.values-checked")
 }
 
 // HarnessC16Perm — permuting options that set distinct keys changes nothing when
